@@ -163,8 +163,13 @@ func VerifC11Pool() {
 	nh := verifapi.Param("hosts", 2)
 	hids := make([]string, nh)
 	uris := make([]string, nh)
+	VerifPeerEnodeForm = verifapi.Param("enodeform", 0) == 1
 	for i := 0; i < nh; i++ {
 		hids[i] = verifapi.NodeID(1 + i)
+		if VerifPeerEnodeForm {
+			// node ids are public keys: any hex digit may come first (these hosts never sign in this harness)
+			hids[i] = string("ed"[i%2]) + hids[i][1:]
+		}
 		uris[i] = "enode://" + hids[i] + "@192.0.2.1:30303"
 		db.SetNode(store.Node{ID: store.NodeID(hids[i]), IsHost: true, LastSeen: t0, URI: uris[i]})
 	}
